@@ -13,6 +13,8 @@ Definition dispatch (fn : Z) (a : sexp) : sexp :=
   match fn with
   | 1%Z => e_res e_str (wrap (d_str (d_nth a 0)) (d_nat (d_nth a 1)) (d_str (d_nth a 2)))
   | 2%Z => e_res e_str (run_output (d_list d_op a) [] [])
+  (* 4: the same operations as a generated .bst run by Interpreter.run: what is still buffered at the end is not emitted *)
+  | 4%Z => e_res e_str (run_output (d_list d_op a) [] [])
   (* 3: a history of wrap calls in one process; the model is a function, so every call is answered on its own *)
   | 3%Z => L (map (fun c => e_res e_str (wrap (d_str (d_nth c 0)) (d_nat (d_nth c 1)) (d_str (d_nth c 2)))) (d_items a))
   | _ => L []
